@@ -42,6 +42,7 @@ def render_stmt(st, ind, cond="r == 0"):
     if k == 'raw': return "%s%s\n" % (t, st[1])          # any statement text (errors of other stages inside branches)
     if k == 'declarr':      # an array literal (empty, or of the given variables) opens a scope of its own in the scoper
         return "%svar %s: [%d]i32 = [%s];\n" % (t, st[1], len(st[2]), ", ".join(st[2]))
+    if k == 'set': return "%s%s = 5;\n" % (t, st[1])          # the variable is the TARGET of an assignment: a use all the same
     if k == 'use': return "%sr = %s;\n" % (t, (USEFORM[0] or "%s") % st[1])
     if k == 'assign': return "%sr = r + 1;\n" % t
     if k == 'loop': return "%sloop;\n" % t
